@@ -29,15 +29,17 @@ class Projection:
 
         """
         tolerance1 = 1e-6
+        maxiter = 100
         umin, umax = curves[0].knotvector.limits
-        niter = 0
-        while True:
+        for _ in range(maxiter):
             bezui = curves[0](initparam) - point
             dbezui = curves[1](initparam)
             ddbezui = curves[2](initparam)
             upper = np.inner(dbezui, bezui)
             lower = np.inner(ddbezui, bezui)
             lower += np.inner(dbezui, dbezui)
+            if lower == 0:  # No newton step from this parameter
+                break
             diff = upper / lower
             initparam -= diff
             if initparam < umin:
@@ -46,7 +48,7 @@ class Projection:
                 return (umax,)
             if np.abs(diff) < tolerance1:
                 return [initparam]
-            niter += 1
+        return tuple()
 
     @staticmethod
     def point_on_bezier(point: Tuple[float], bezier: Curve) -> Tuple[float]:
@@ -58,7 +60,7 @@ class Projection:
         curves.append(Derivate(curves[0]))
         curves.append(Derivate(curves[1]))
         tparams = np.linspace(umin, umax, 5)
-        tvalues = set()
+        tvalues = {umin, umax}
         for tparam in tparams:
             newt = Projection.__newton_point_on_curve(point, curves, tparam)
             tvalues |= set(newt)
